@@ -390,6 +390,20 @@ def run(ctx):
         ctx.count("getters")
         ctx.ob("C11.d", f"{AC}.{prop}", ok, f"public `{prop}` returns self.{key}", func=f"{AC}.{prop}", file=ac.module.rel, construct=f"{prop} getter",
                fail=f"public property `{prop}` does not return self.{key}")
+    # ---------------------------------------------------------------- C11.e both trailing check styles are accepted
+    rv = ctx.fn(f"{CMD}.Response.validate")
+    rvs = summarize(prog, rv)
+    p2 = rv.params[-1]
+    last = ("sub", ("param", p2), ("const", -1))
+    for pc, exc, node, _st in rvs.raises:
+        facts = atoms(pc)
+        crc_ne = any(f[0] == "cmp" and f[1] == "!=" and ((call_is(strip(f[2]), "msmart.crc8.calculate") and strip(f[3]) == last) or (call_is(strip(f[3]), "msmart.crc8.calculate") and strip(f[2]) == last)) for f in facts)
+        sum_ne = any(f[0] == "cmp" and f[1] == "!=" and ((call_is(strip(f[2]), "msmart.frame.Frame.checksum") and strip(f[3]) == last) or (call_is(strip(f[3]), "msmart.frame.Frame.checksum") and strip(f[2]) == last)) for f in facts)
+        ctx.count("body_check_rejections")
+        ctx.ob("C11.e", rv.qual, crc_ne and sum_ne, "a state response is rejected only when its check byte matches neither the CRC-8 nor the additive checksum (both device styles decode)",
+               func=rv.qual, file=rv.module.rel, node=node, detail={"facts": [show(f)[:100] for f in facts]},
+               fail="responses using one of the two trailing check styles (CRC-8 / additive) are rejected: the rejection does not require *both* checks to fail")
+    ctx.require_min("body_check_rejections", 1)
     ctx.require_min("regions", 6)
     ctx.require_min("attributes", 19)
     ctx.require_min("temperature_call_sites", 2)
